@@ -328,14 +328,17 @@ Proof.
 Qed.
 
 (* ---- the minimum along dimension 1 of (A x C x B) ------------------------------------------------------------ *)
+Definition argmin_3 (A C B : nat) (g : nat -> nat -> nat -> fx) : tn Z :=
+  mkTn [A; B] (tab2 A B (fun i k => let f := map (fun j => g i j k) (seq 0 C) in Z.of_nat (first_at (fmin_list f) f))).
+
 Lemma min_dim_3 : forall A C B (g : nat -> nat -> nat -> fx), C <> 0 ->
-  exists idx, min_dim (mkTn [A; C; B] (tab3 A C B g)) 1 =
-    Some (Some (mkTn [A; B] (tab2 A B (fun i k => fmin_list (map (fun j => g i j k) (seq 0 C)))), idx)).
+  min_dim (mkTn [A; C; B] (tab3 A C B g)) 1 =
+    Some (Some (mkTn [A; B] (tab2 A B (fun i k => fmin_list (map (fun j => g i j k) (seq 0 C)))), argmin_3 A C B g)).
 Proof.
-  intros A C B g HC. unfold min_dim. cbn [rank shp dat length]. change (wrap_dim 3 1) with (Some 1).
+  intros A C B g HC. unfold min_dim, argmin_3. cbn [rank shp dat length]. change (wrap_dim 3 1) with (Some 1).
   cbv beta iota zeta. cbn [outer extent inner drop_dim firstn skipn nth numel app].
   replace (C =? 0) with false by (symmetry; now apply Nat.eqb_neq).
-  eexists. do 3 f_equal. f_equal. apply tab2_ext. intros i k Hi Hk. now rewrite fibre_tab3.
+  do 3 f_equal; f_equal; apply tab2_ext; intros i k Hi Hk; now rewrite fibre_tab3.
 Qed.
 
 (* ---- floats that are integers over a common denominator ------------------------------------------------------ *)
